@@ -7,6 +7,11 @@ NONLOAD = ("converter", "linreg", "rloss", "vloss", "pswitch", "rectifier")
 def sd(rng, lo, hi, digits=3):
     """log-uniform short decimal in [lo, hi]"""
     x = math.exp(rng.uniform(math.log(lo), math.log(hi)))
+    if rng.random() < 0.04:
+        # "round" magnitudes (1, 2, 10, 100 ...): a comparison against a literal constant in the code only shows there
+        r = [c for c in (1.0, 2.0, 0.5, 10.0, 100.0, 0.1, 1000.0) if lo <= c <= hi]
+        if r:
+            return rng.choice(r)
     return float("%.*g" % (digits, x))
 
 
@@ -83,7 +88,7 @@ def gen_system(rng, *, max_nodes=24, p_table=0.25, p_mux=0.3, n_sources=None, po
         return c
 
     for s in range(ns):
-        vo = sd(rng, 1.8, 48)
+        vo = sd(rng, 1.0, 48)
         if polarity and rng.random() < 0.25:
             vo = -vo
         args = {"vo": vo}
